@@ -470,8 +470,13 @@ func runHealth(sc healthScen, idx int) (map[string]any, error) {
 		if err != nil {
 			return nil, err
 		}
+		// several check intervals; on a busy machine up to two seconds for the checker to have run
 		time.Sleep(ms(250))
 		_, _, uh := l4proxy.VerifHandlerCounters(h1)
+		for w := 0; w < 35 && !uh[0][0]; w++ {
+			time.Sleep(ms(50))
+			_, _, uh = l4proxy.VerifHandlerCounters(h1)
+		}
 		rec.Add(vh.Ev{"e": "Marked", "unhealthy": uh[0][0]})
 		done1()
 		time.Sleep(ms(100)) // a check that was under way has ended
